@@ -58,6 +58,15 @@ def extensions(rng, scn):
     x["beh"]["n_adapters"] = 2
     e["components"].append(x)
     out.append(("command-adapter-device", e))
+    # a second adapter on an EXISTING device of the base, with an io whose setup returns at once (TCP / EPICS / ZeroMQ style)
+    # next to the device's serving adapter: the first adapter must go on serving
+    firstdev = next((c for c in scn["components"] if c["kind"] == "dev"), None)
+    if firstdev is not None and not firstdev["beh"].get("command") and not firstdev["beh"].get("epics"):
+        e = copy.deepcopy(scn)
+        fd = next(c for c in e["components"] if c["name"] == firstdev["name"])
+        fd["beh"]["n_adapters"] = fd["beh"].get("n_adapters", 1) + 1
+        fd["beh"]["io_returns"] = True
+        out.append(("second-adapter-with-returning-io", e))
     # a disconnected device INSIDE an existing system of the base
     syss = [c for c in scn["components"] if c["kind"] == "sys"]
     if syss:
@@ -257,8 +266,19 @@ def run(tier, seed, drv):
                 n = SC.check_run(e2, re_, drv, res, monitors_on=("adapters", "ticker"), corr=("ticker",), case_extra=case)
                 if n:
                     continue
+                # no serving adapter io of a base device may be shut down while the simulation runs (nobody failed, nobody
+                # was told to stop)
+                cancelled = [ev for ev in re_["trace"].of("io-cancelled") if ev["comp"] in base_devs]
+                if cancelled and not re_["trace"].of("produce", ) is None and not any(ev["msg"]["m"] == "StopComponent" for ev in re_["trace"].of("produce")):
+                    res.violate(V("adapter-influenced-by-unconnected-part", f"adding {label}: the serving io of adapter {cancelled[0]['adapter']} of {cancelled[0]['comp']} was cancelled while the simulation was running",
+                                  site="DeviceComponent.run_forever", extension=label), case)
+                    continue
                 ob, nb = base_view(scn, rb, base_devs, t_end)
                 oe, ne = base_view(e2, re_, base_devs, t_end)
+                if label == "second-adapter-with-returning-io":
+                    # the added adapter itself is the added part: only the adapters the base has are compared
+                    nad = {d["name"]: d["beh"].get("n_adapters", 1) for d in S.devices(scn)}
+                    ne = {k: v for k, v in ne.items() if not (k[0] == "after_update" and isinstance(k[2], int) and k[2] >= nad.get(k[1], 1))}
                 if ob != oe:
                     d = next(k for k in sorted(set(ob) | set(oe)) if ob.get(k) != oe.get(k))
                     res.violate(V("influenced-by-unconnected-part", f"adding {label}: device {d} observed {oe.get(d)} instead of {ob.get(d)}", site="observations", extension=label), case)
